@@ -74,6 +74,12 @@ type Closure struct {
 
 type FuncNil struct{}
 
+// NativeFn is a function value implemented by the engine (e.g. a context's cancel function).
+type NativeFn struct {
+	Name string
+	F    func(e *Engine, args []Value) Value
+}
+
 type Chan struct {
 	Buf    []Value
 	Cap    int
